@@ -49,7 +49,9 @@ func canonEUI(s string) string {
 	}
 	return rEUI(e)
 }
-func aApp(a *lospan.Application) string { return "app(" + canonEUI(a.Eui) + "," + rTxt(a.GetTag()) + ")" }
+func aApp(a *lospan.Application) string {
+	return "app(" + canonEUI(a.Eui) + "," + rTxt(a.GetTag()) + ")"
+}
 func aDev(d *lospan.Device) string {
 	n := make([]int, len(d.DevNonces))
 	for i, v := range d.DevNonces {
@@ -99,12 +101,12 @@ func euiText(rng *rand.Rand, e protocol.EUI) string {
 func ptr[T any](v T) *T { return &v }
 
 type devReqText struct {
-	eui, app                       string
-	state, addr                    string
-	k1, k2, k3                     string
-	relaxed, kw, fdn, fup          string
-	genEUI, genK1, genK2, genK3    string
-	genAddr                        string
+	eui, app                    string
+	state, addr                 string
+	k1, k2, k3                  string
+	relaxed, kw, fdn, fup       string
+	genEUI, genK1, genK2, genK3 string
+	genAddr                     string
 }
 
 func (t devReqText) String() string {
